@@ -134,7 +134,9 @@ def gen_meta(rng, enc):
     ws = rng.choice([' ', '  ', '\n ', ' '])
     close = rng.choice(['>', ' />', '/>'])
     meta = '<%s%s%s%s%s%s' % (rng.choice(['meta', 'META']), ws, attrs[0], ws, attrs[1], close)
-    pre = rng.choice(['', '', '<meta name="x" content="y">', '<title>t</title>'])
+    pre = rng.choice(['', '', '<meta name="x" content="y">', '<title>t</title>',
+                      '<!-- ' + 'licence text ' * rng.choice([90, 400]) + '-->',
+                      ''.join('<link rel="stylesheet" href="s%d.css">' % i for i in range(rng.choice([40, 150])))])
     return pre + meta, form + ('-http-equiv-first' if order else '-content-first')
 
 
